@@ -5,7 +5,7 @@ independent std::map twin (and std::unordered_multimap for the wrapper) which is
 import os, re
 
 MS = [1, 2, 3, 4, 7, 15]
-GEN = ['gen_growcap.json', 'gen_arraybucket.json', 'gen_arraybucket_cnt.json', 'gen_arraybucket_s.json', 'gen_hashmultimap.json']
+GEN = ['gen_growcap.json', 'gen_arraybucket.json', 'gen_arraybucket_cnt.json', 'gen_arraybucket_s.json', 'gen_hashmultimap.json', 'gen_versioncheck.json', 'gen_versioncheck_a.json', 'gen_wrap_eq.json', 'gen_wrap_erase.json']
 BUCKETS = ['L.c', 'O8.c', 'O2.c', 'L.f', 'O8.f', 'O2.f']
 
 # ----------------------------------------------------------------------------- generators
@@ -232,7 +232,7 @@ def oracle(ctx, cases, impl_lines):
                 if why: break
             if why: bad.append((c, out[-400:], why)); continue
             if ':H' in out and ':N:}' in out: ctx.nontrivial.add(c)
-        elif c.split()[0] in ('gc', 'ms', 'gp', 'fi', 'ab2', 'hm'):
+        elif c.split()[0] in ('gc', 'ms', 'gp', 'fi', 'ab2', 'hm', 'hx'):
             pass      # translator validation only: decided by the correspondence with the generated Gallina
         elif c.startswith('um '):
             if 'eqT' in out or 'er' in out: ctx.nontrivial.add(c)
@@ -481,15 +481,18 @@ def run(ctx):
         if h is not None: byexe.setdefault(h, []).append(c)
     kc = gen_kernel_cases(ctx)
     groups = sorted(byexe.items()) + [(exes.get(0), um_cases), (exes.get('gen'), [c for c in kc if c.startswith('ab2')]),
-                                      ('GEN', [c for c in kc if not c.startswith('ab2')])]
+                                      ('GEN', [c for c in kc if not c.startswith('ab2')]),
+                                      ('HXH', [c for c in kc if c.startswith('hx')])]
     total_bad = []; injected_total = [0, 0, 0, 0, 0, 0]; dist = new_dist()
     for h, cs in groups:
         drv, has = model_exe, have_model
         isgen = (h == 'GEN')
+        ishx = (h == 'HXH')
+        if ishx: h = exes.get('gen')
         if isgen: h = exes.get('gen'); drv, has = gen_exe, have_gen
         if h is None or not cs: continue
         M = 0 if h in (exes.get(0), exes.get('gen')) else 1
-        name = 'generated-kernels' if isgen else 'two-buckets' if h == exes.get('gen') else 'wrapper' if not M else 'mm-' + re.sub(r'^harness_([mc]\d+)_.*$', r'\1', os.path.basename(h))
+        name = 'generated-kernels' if isgen else 'version-check-hand-model' if ishx else 'two-buckets' if h == exes.get('gen') else 'wrapper' if not M else 'mm-' + re.sub(r'^harness_([mc]\d+)_.*$', r'\1', os.path.basename(h))
         impl_lines = None
         if has:
             mism, (rc1, e1, rc2, e2) = ctx.correspond(name, cs, [h], [drv])
@@ -568,6 +571,13 @@ def gen_kernel_cases(ctx):
             elif t < 97: ops.append('c'); lens = {}
             else: ops.append('D')
         cases.append('hm ' + ' '.join(ops))
+        # the same script with iterator version checks in exception mode: remember an iterator, use it after other calls
+        ops2 = []
+        for t_ in ops:
+            ops2.append(t_)
+            if r.chance(1, 4): ops2.append('I,%d,%d' % (r.below(4), r.below(3)))
+            if r.chance(1, 3): ops2.append('U')
+        cases.append('hx ' + ' '.join(ops2))
     # two real ArrayBucket objects, every member that writes mPtr (frame machine ab2_step)
     for i in range(300 if ctx.quick() else 1500):
         M = r.choice([1, 2, 7, 15]); ops = []; la = lb = 0; nv = 0
